@@ -766,7 +766,7 @@ def oracle(aug, res):
     # (1) equalities, (2) inequalities of the program as stated. With the default parameters: the margins of the statement.
     # With a non-default epsilon the residual test no longer implies them; what is left is `program_t::feasible`
     # (1e-8 on the rows normalised by max(1e-3, |A|_F, |b|_2)), i.e. with the 100x allowance 1e-6 (1 + |b|_inf + |A|_F).
-    default = not c["pars"]
+    default = not c["pars"] or [float(t) for t in c["pars"][:6]] == [0.999, 10.0, 1e-2, 0.9, 1e-10, 1e-16]   # only the budgets differ
     eps = 1e-10 if default else c["pars"][4]
     fro = lambda M: math.sqrt(sum(float(t) ** 2 for rr in M for t in rr))
     if Ps["b"]:
@@ -1312,11 +1312,20 @@ def rnd_pars(rng):
             rng.choice([0.5, 0.9]), rng.choice([1e-3, 1e-3, 1e-6, 1e-8, 1e-10]), rng.choice([1e-16, 1e-12])]
 
 
+def rnd_budget_pars(rng):
+    """the default `s0 … epsilon0` followed by small iteration budgets `solver::max_iters` (domain [10, 1000]) and
+    `solver::max_lsearch_iters`: runs that end because the budget is used up, a few iterations before / after the residual test
+    would have been met (whatever the budget, `converged` has to mean what the statement says)"""
+    return [0.999, 10.0, 1e-2, 0.9, 1e-10, 1e-16, float(rng.choice([10, 10, 11, 12, 13, 14, 16, 20, 1000])), float(rng.choice([10, 50, 50]))]
+
+
 def with_restatements(rng, case, count):
     """the op lines of one base program: as stated + `count` applicable restatements (None = all)"""
     out = []
     if rng.chance(0.15):
         case = dict(case); case["pars"] = rnd_pars(rng)
+    elif rng.chance(0.12):
+        case = dict(case); case["pars"] = rnd_budget_pars(rng)
     # the equality restatements apply to fewer programs: try them first half of the time
     eqk = rng.shuffle(["dupeq", "combeq", "mixeq", "scaleeq"])
     oth = rng.shuffle(["scaleineq", "scaleobj", "permvars", "permrows"])
